@@ -225,7 +225,9 @@ def h_reader_overlap(p1: int, q: int, p2: int, storage: str, band: int, pause: b
         qlo, qhi = [int(x_) for x_ in qwin.split(':')]
         qq = pick(q, qlo, qhi)
         assume(p1 <= p2)
-        lo, hi = (60 + 8 * band, 68 + 8 * band) if band < 7 else (116, 10 ** 9)
+        # shards split the start points by residue (no absolute ranges: the number of yield points moves with the code)
+        assume(p1 % 8 == band)
+        lo, hi = 60, 10 ** 9
     else:
         qq = None
         assume(q == 0 and p2 == 0)
